@@ -55,6 +55,7 @@ struct CacheEngine: Engine{
     if(tier=="thorough" && mode==0 && r.chance(0.2)) maxops=7;
     int prefill=r.chance(0.45)?cap:r.range(0,cap);      // a full cache is where pops contend
     p["prefill"]=prefill;
+    p["payload"]=r.chance(mode==0?0.25:0.5)?"raw":"val";
     Json threads=Json::array();
     for(int t=0;t<nthreads;t++){
       int bias=r.range(0,2); // 0 producer, 1 consumer, 2 mixed
@@ -95,7 +96,9 @@ struct CacheEngine: Engine{
     int nthreads=(int)threads.size(); if(nthreads>3) nthreads=3;
     if(tls && nthreads>1) nthreads=1;
     cachesim_hb_reset();
-    CacheIface* c=tls?make_tls_cache(cap):make_shared_cache(cap);
+    bool raw=plan["payload"].as_str("val")=="raw";    // a trivially constructible payload (the happens-before model needs the instrumented one)
+    CacheIface* c=tls?make_tls_cache(cap,raw):make_shared_cache(cap,raw);
+    ctr.add(raw?"payload_raw":"payload_instrumented");
     cachesim_spurious_pct=(int)plan["spurious_pct"].as_int(0);
     cachesim_coarse=(int)plan["coarse"].as_int(0);
     int prefill=(int)plan["prefill"].as_int(0); if(prefill>cap) prefill=cap; if(prefill<0) prefill=0;
